@@ -666,6 +666,22 @@ def fam_hostile_srv(seed, n=0, dirs=("fwd", "rev"), modes=("neg", "legacy", "off
                                 "cfg": {"dir": d, "rawCli": mode}, "steps": steps, "rpcs": rpcs,
                                 "policy": {"kind": "eager", "seed": seed, "max": 200},
                                 "meta": {"family": "hostile-srv", "deviation": dname}})
+        # a peer that announces an enormous message and sends only its first bytes (legal so far: the rest could
+        # follow as credit is returned): the endpoint must not reserve what was merely announced
+        for announced in (1 << 28, (1 << 32) - 1):
+            for shape in ("bidi", "cstream"):
+                frames = [new_frame(1, 1, shape=shape), new_frame(2, 2, shape="unary"), raw("msg", 1, size=announced, len=64)]
+                steps = copy.deepcopy(PREFIX) + [{"do": "heap"}]
+                for f in frames:
+                    steps += [copy.deepcopy(f), dl("c2s")]
+                steps += [sop(1, "recv"), {"do": "heap"}] + data_frames(2, 2, "c", 0, 9)[:0]
+                for f in data_frames(2, 2, "c", 0, 9) + [raw("half", 2)]:
+                    steps += [copy.deepcopy(f), dl("c2s")]
+                steps += [sop(2, "recv"), sop(2, "ret", code=0, n=4), {"do": "drain"}, {"do": "heap"}]
+                out.append({"name": "hostile-srv-%s-announce-huge-%s-%d" % (d, shape, announced >> 20),
+                            "cfg": {"dir": d, "rawCli": "neg"}, "steps": steps, "rpcs": [{"rpc": 1}, {"rpc": 2}],
+                            "policy": {"kind": "eager", "seed": seed, "max": 0},
+                            "meta": {"family": "hostile-srv", "deviation": "announce-huge"}})
         # the same id discipline while the server is shutting down (new RPCs are refused, but a refused id
         # is still a used id: stale / reused / backwards ids end the tunnel, follow-up frames of a refused
         # RPC do not)
@@ -1077,6 +1093,15 @@ def fam_registry(seed, n):
             if first == "gstop":
                 steps += [rstep("stop", t=1), rstep("rpc", via="all")]
             out.append({"name": "registry-rts-%s-%d" % (first, pre), "steps": steps, "meta": {"family": "registry"}})
+    # (6) a Serve refused during / after shutdown must not keep GracefulStop or Stop from returning:
+    # the tunnel ends (from either side) after the refused Serve, then everything must have returned
+    for end in ("close", "fail", "ctxcancel"):
+        steps = [rstep("serve", t=1, key="k1"), rstep("rpc", via="all"), rstep("gstop", t=1), rstep("reserve", t=1, **{"as": 5}),
+                 rstep("reserve", t=1, **{"as": 6}), rstep(end, t=1), rstep("rpc", via="all"), rstep("stop", t=1), rstep("rpc", via="all")]
+        out.append({"name": "registry-rts-refused-gstop-%s" % end, "steps": steps, "meta": {"family": "registry"}})
+    steps = [rstep("serve", t=1, key="k1"), rstep("stop", t=1), rstep("reserve", t=1, **{"as": 5}), rstep("stop", t=1), rstep("gstop", t=1),
+             rstep("rpc", via="all")]
+    out.append({"name": "registry-rts-refused-stop", "steps": steps, "meta": {"family": "registry"}})
     return out
 
 
